@@ -141,6 +141,8 @@ def run(ctx, rep):
         ok = order[:2] == ['define', 'new_context']
     rep.ob(ok, 'R12.3', 'compiler::Compiler::compile_expression', 'Expr::Function', 'define(name) precedes new_context() (the body can call itself)', 'src/compiler.rs')
     check_frame_arith(ctx, rep, 'R12.4')
+    rep.rule('R12.7', 'deep recursion ends at a limit of the machine, not of the host: the number of call frames is bounded by a test with an error edge')
+    check_frame_depth(ctx, rep, 'R12.7')
 
 
 def _norm(v, env, roles, depth=0):
@@ -335,3 +337,57 @@ def check_frame_arith(ctx, rep, rule):
                        'the stack length is narrowed to 16 bits without a bound check: beyond 65535 slots the frame base silently wraps', span_loc(st['span']))
     rep.count('call_arm_casts', ncast)
 
+
+
+def check_frame_depth(ctx, rep, rule):
+    """the stack of call frames is bounded: a program that calls without end (`functie f() { f() } f()` needs no operand slot
+    per call, so the 16-bit operand-stack guard never fires) must end in an error, not in the process running out of memory.
+    Every push onto VM.frames that a running program can reach is preceded - in the function that pushes, or at every call
+    site of that function - by a comparison of frames.len() with a constant whose failing side returns an error."""
+    from rules import psc
+    F = ctx.facts()
+    vm = F.adt('vm::VM')
+    fidx = next((i for i, f in enumerate(vm['variants'][0]['fields']) if f['name'] == 'frames'), None)
+    if fidx is None:
+        cand = [i for i, f in enumerate(vm['variants'][0]['fields']) if 'Frame' in f['ty'] and 'Vec<' in f['ty']]
+        if len(cand) != 1:
+            raise CheckerError('%s: anchor not found: the field of VM that holds the call frames' % rule)
+        fidx = cand[0]
+    fname = vm['variants'][0]['fields'][fidx]['name']
+
+    def on_frames(fn, op):
+        s_ = str(psc.sym(fn, op))
+        return "'field', ('deref', ('param', 1)), '%s'" % fname in s_
+
+    def guarded(fn, b):
+        for f in psc.facts_at(fn, b):
+            if f[0] in ('Lt', 'Le', 'Gt', 'Ge'):
+                a, c = psc.strip(f[1]), psc.strip(f[2])
+                for x, y in ((a, c), (c, a)):
+                    if x[0] == 'len' and "'%s'" % fname in str(x) and y[0] == 'int':
+                        # the surviving side must bound the length from above
+                        upper = (x is a and f[0] in ('Lt', 'Le')) or (x is c and f[0] in ('Gt', 'Ge'))
+                        if upper:
+                            return True
+        return False
+    sites = []
+    for fn in F.all_fns:
+        if fn.crate != 'lib' or not fn.path.startswith('vm::VM::') or fn.path == 'vm::VM::new':
+            continue
+        for b, t in fn.calls():
+            if callee_name(t) == 'alloc::vec::Vec::<T, A>::push' and on_frames(fn, t['args'][0]):
+                sites.append((fn, b, t))
+    n = 0
+    for fn, b, t in sites:
+        n += 1
+        ok = guarded(fn, b)
+        where = 'in the function'
+        if not ok:
+            callers = [(cf, cb, ct) for cf, cb, ct in F.callers_of(lambda p, fp=fn.path: p == fp) if cf.crate == 'lib']
+            ok = bool(callers) and all(guarded(cf, cb) for cf, cb, ct in callers)
+            where = 'at each of its %d call sites' % len(callers)
+        rep.ob(ok, rule, fn.path, 'frames.push#%d' % n, 'the number of call frames is compared with a constant bound %s before a frame is pushed, the failing side being an error return%s' % (
+            where, '' if ok else ' - missing: endless recursion without arguments or locals grows the frame list until the allocator aborts the process'), span_loc(t['span']))
+    rep.count('frame_push_sites', n)
+    if n == 0:
+        raise CheckerError('%s: anchor not found: no push onto VM.%s in the VM' % (rule, fname))
